@@ -70,8 +70,11 @@ Definition slide_post (C : list elem) (r : lres) (sr : sres) : Prop :=
   match r with
   | LWait w k c u => exists pw lp, sr = SOk pw c u /\ instr C pw = Some (elem_of_wait w) /\ wf_wait w /\
                                    kmatch C k (pw + 1) lp
-  | LCallR name k c u => exists pw lp, sr = SOk pw c u /\ instr C pw = Some (LFlow name) /\
-                                       kmatch C k (pw + 1) lp
+  | LCallR name k c u => exists pw lp rest k', k = KSeq rest k' /\ sr = SOk pw c u /\
+                                       instr C pw = Some (LFlow name) /\
+                                       code_at C (pw + 1) (compile_block (rel lp (pw + 1)) rest) /\
+                                       wf_block (inl lp) rest = true /\
+                                       kmatch C k' (pw + 1 + bsize rest) lp
   | LEnd c u => exists h, sr = SOk h c u /\ h < 0
   | LExc => sr = SErr
   | LFuel => False
@@ -346,7 +349,8 @@ Section Sim.
           eapply slides_step; [exact Hi| |exact Hsl]. unfold slide_elem. f_equal. lia.
         * (* do *)
           simpl in Hr. subst r. exists (SOk pc c u). split.
-          -- simpl. exists pc, lp. repeat split; auto. eapply code_at_head; eauto.
+          -- simpl. exists pc, lp, rest, k. repeat split; auto;
+               try (eapply code_at_head; eauto); try (apply Hk1; reflexivity).
           -- eapply slides_stay; [eapply code_at_head; eauto|reflexivity].
   Qed.
 End Sim.
